@@ -7,6 +7,7 @@ CONSTANTS
   MaxClock = 1
   MaxRm = 1
   Interval = 1
+  RegOrder = "locked"
   RemoveBy = "instance"
   Results = {"keep", "stop"}
   KeepHist = "off"
